@@ -1,119 +1,267 @@
 ---------------------------- MODULE NostdVariant ----------------------------
 (***************************************************************************)
-(* C20, variant machine: the contract of std::variant<int, std::string,    *)
-(* Tracked> (Tracked = an instance-counted class of the harness) which     *)
-(* nostd::variant (the bundled absl variant) must follow.                  *)
+(* C20, variant machine: the contract of std::variant which nostd::variant *)
+(* (the bundled absl variant) must follow.  Two shapes (constant Shape):   *)
+(*   "basic"     std::variant<int, std::string, Tracked>   (Tracked = an   *)
+(*               instance-counted class of the harness; nothing can throw) *)
+(*   "throwing"  std::variant<int, Safe, Shaky>: two instance-counted      *)
+(*               classes whose potentially-throwing members (converting    *)
+(*               constructor from a source object, copy constructor, copy  *)
+(*               and converting assignment; for Shaky also the move        *)
+(*               constructor and move assignment -- Safe's are noexcept)   *)
+(*               can be armed: operation parameter f = 1 = "the first      *)
+(*               potentially-throwing member of an alternative called by   *)
+(*               this operation throws".  Every such member throws BEFORE  *)
+(*               it changes anything (strong guarantee of the alternative).*)
 (*                                                                         *)
-(* State: two variant variables v1, v2, each [idx, val].  Values are       *)
-(* abstract 0..1 per alternative; ANY = "valid but unspecified" (a         *)
-(* moved-from std::string: every observation of the VALUE is a don't-care, *)
-(* the index is not); MOVED = the moved-from marker of Tracked (its move   *)
-(* operations set it, so it is deterministic).                             *)
-(* Operations: converting assignment, emplace<I>, copy/move assignment,    *)
-(* copy/move construction (the variable is destroyed and re-created from   *)
-(* the other one), self copy-assignment, swap.  After every step the whole *)
-(* observer suite is projected for both variables: index(),                *)
-(* holds_alternative<T>, get<I> (value, or bad_variant_access for the      *)
-(* wrong index), get_if<I>, visit (unary and binary), == and <, and the    *)
-(* number of live Tracked instances (an alternative that is replaced is    *)
-(* destroyed; a held one is not).                                          *)
+(* State: two variant variables v1, v2, each [idx, val]; idx = NPOS = the  *)
+(* variant is valueless_by_exception.  Values are abstract 0..1 per        *)
+(* alternative; ANY = "valid but unspecified" (a moved-from std::string:   *)
+(* every observation of the VALUE is a don't-care, the index is not);      *)
+(* MOVED = the moved-from marker of the classes (their move operations set *)
+(* it, so it is deterministic).                                            *)
+(*                                                                         *)
+(* Rules transcribed from the standard ([variant.assign], [variant.mod]):  *)
+(*  v = t selecting T_j:  holds T_j -> assign to the contained value       *)
+(*    (rule "assign": on an exception the variant keeps its alternative,   *)
+(*    the value is whatever T_j's assignment guarantees -- here unchanged);*)
+(*    else if is_nothrow_constructible<T_j,T> or not                       *)
+(*    is_nothrow_move_constructible<T_j> -> emplace<j>(t) (rule "direct":  *)
+(*    the old value is destroyed first; on an exception the variant MIGHT  *)
+(*    not hold a value: valueless -- or, for an implementation that is     *)
+(*    stronger than required, unchanged: don't-care band `might`);          *)
+(*    else emplace<j>(T_j(t)) / operator=(variant(t)) (rule "temp": the    *)
+(*    new value is complete before the old one is destroyed: on an         *)
+(*    exception NOTHING changes -- strict).                                *)
+(*  copy assignment: rhs valueless -> valueless; same alternative ->       *)
+(*    "assign"; else if is_nothrow_copy_constructible<T_j> or not          *)
+(*    is_nothrow_move_constructible<T_j> -> "direct", else "temp".         *)
+(*  move assignment: rhs valueless -> valueless; same -> "assign"; else    *)
+(*    "direct" from the rvalue.     emplace<j>(args): always "direct".     *)
+(*  A valueless variant: index() = npos, holds nothing, get<I> and visit   *)
+(*  throw bad_variant_access, get_if = null, equal only to another         *)
+(*  valueless one and less than every variant that holds a value.          *)
+(* Self-aliasing sources: AliasSelf  v = get<held>(v)  (same alternative), *)
+(* AliasMember  v = get<held>(v).member  where the member is a source      *)
+(* object converting to alternative i: same alternative -> "assign" from   *)
+(* its own member; another alternative -> only where the rule is "temp"    *)
+(* (under "direct" the source would be destroyed before it is read: that   *)
+(* is undefined for std::variant too and not exercised).                   *)
+(*                                                                         *)
+(* After every step the whole observer suite is projected for both         *)
+(* variables: whether the operation threw, index(), valueless_by_exception,*)
+(* holds_alternative<T>, get<I> (value, or bad_variant_access), get_if<I>, *)
+(* visit (unary and binary), == != < > <= >=, and the number of live       *)
+(* instances of every counted class (an alternative that is replaced is    *)
+(* destroyed exactly once; a held one is not; a constructor that threw     *)
+(* created nothing).                                                       *)
 (***************************************************************************)
-EXTENDS Naturals, Sequences, FiniteSets, TLC, Json
+EXTENDS Integers, Sequences, FiniteSets, TLC, Json
 
 CONSTANTS Hist, Depth, Dev,
-          Slim      \* BOOLEAN: all-paths generation only -- AssignVal always assigns value 1, Emplace value 0
+          Slim,     \* BOOLEAN: all-paths generation only -- AssignVal always assigns value 1, Emplace value 0, the
+                    \* source form of a fault-free class assignment is left to the harness, faults only where they fire
+          Shape     \* "basic" | "throwing"
 
-NAlt  == 3                   \* 0: int   1: std::string   2: Tracked
+Throwing == Shape = "throwing"
+NAlt  == 3                   \* basic: 0 int  1 std::string  2 Tracked      throwing: 0 int  1 Safe  2 Shaky
 Alt   == 0..(NAlt - 1)
 ValD  == 0..1
 ANY   == 7
 MOVED == 8
-THROW == 99                  \* get<I> on the wrong alternative throws bad_variant_access
+THROW == 99                  \* get<I> on the wrong alternative / visit of a valueless variant throws bad_variant_access
+NPOS  == -1                  \* index() of a valueless variant (variant_npos)
 V(i, x) == [idx |-> i, val |-> x]
+Valueless == V(NPOS, 0)
 Names == {"v1", "v2"}
 Other(n) == IF n = "v1" THEN "v2" ELSE "v1"
 
-NWit == 6          \* number of witness conditions (section "behaviour export")
-VARIABLES vv, hist
-vars == <<vv, hist>>
+(* ---- traits of the alternatives (what the library's rules depend on) ------ *)
+IsClass(j)     == IF Throwing THEN j \in {1, 2} ELSE j = 2           \* instance-counted
+Throwers       == IF Throwing THEN {1, 2} ELSE {}                     \* alternatives whose members can be armed
+NothrowMove(j) == ~(Throwing /\ j = 2)                                \* is_nothrow_move_constructible (and -assignable)
+NothrowCopy(j) == j = 0                                               \* is_nothrow_copy_constructible
+\* is_nothrow_constructible<T_j, source>: source forms "conv" (a source object / const char* ), "lv" (const T_j&), "rv" (T_j&&)
+NothrowFrom(j, how) == IF how = "rv" THEN NothrowMove(j) ELSE j = 0
+ConvRule(held, j, how) == IF held = j THEN "assign"
+                          ELSE IF NothrowFrom(j, how) \/ ~NothrowMove(j) THEN "direct" ELSE "temp"
+CopyRule(held, j)      == IF held = j THEN "assign"
+                          ELSE IF NothrowCopy(j) \/ ~NothrowMove(j) THEN "direct" ELSE "temp"
+MoveRule(held, j)      == IF held = j THEN "assign" ELSE "direct"
+\* the operation calls a potentially-throwing member of T_j (constructor or assignment from that source form)
+Fires(j, how) == j \in Throwers /\ (how = "rv" => ~NothrowMove(j))
+
+NWit == 20         \* number of witness conditions (section "behaviour export")
+VARIABLES vv, hist,
+          last,    \* ghost: [op, i, rule, threw, d, pre] of the last operation if it threw (else NoLast) (the clauses about exceptions are stated on it)
+          thrown   \* ghost: an injected exception has left an operation
+vars == <<vv, hist, last, thrown>>
 
 \* the value left behind in a moved-from alternative
-MovedFrom(v) == IF v.idx = 0 THEN v ELSE IF v.idx = 1 THEN V(1, ANY) ELSE V(2, MOVED)
+MovedFrom(v) == IF v.idx \in {0, NPOS} THEN v ELSE IF IsClass(v.idx) THEN V(v.idx, MOVED) ELSE V(v.idx, ANY)
 
 (* ---- observable projection ----------------------------------------------- *)
 B(x) == IF x THEN "T" ELSE "F"
+\* a valueless variant compares like index -1 with a single value
 EqV(v, w) == IF v.idx # w.idx THEN "F" ELSE IF ANY \in {v.val, w.val} THEN "any" ELSE B(v.val = w.val)
 LtV(v, w) == IF v.idx < w.idx THEN "T" ELSE IF v.idx > w.idx THEN "F"
              ELSE IF ANY \in {v.val, w.val} THEN "any" ELSE B(v.val < w.val)
 NotV(x) == IF x = "any" THEN "any" ELSE IF x = "T" THEN "F" ELSE "T"
 ObsVar(v) ==
   [idx   |-> v.idx,
+   vless |-> B(v.idx = NPOS),
    holds |-> [j \in 1..NAlt |-> B(v.idx = j - 1)],
    get   |-> [j \in 1..NAlt |-> IF v.idx = j - 1 THEN v.val ELSE THROW],   \* also get_if: null iff THROW
-   visit |-> <<v.idx, v.val>>]                                            \* visitor returns (alternative, value)
-Live(s) == Cardinality({n \in Names : s[n].idx = 2})
-ObsOf(s) == [v1 |-> ObsVar(s.v1), v2 |-> ObsVar(s.v2),
-             visit2 |-> <<s.v1.idx, s.v1.val, s.v2.idx, s.v2.val>>,
+   visit |-> IF v.idx = NPOS THEN <<THROW, THROW>> ELSE <<v.idx, v.val>>]  \* visitor returns (alternative, value)
+Live(s) == [j \in 1..NAlt |-> IF IsClass(j - 1) THEN Cardinality({n \in Names : s[n].idx = j - 1}) ELSE 0]
+ObsOf(s, threw) ==
+            [v1 |-> ObsVar(s.v1), v2 |-> ObsVar(s.v2),
+             visit2 |-> IF NPOS \in {s.v1.idx, s.v2.idx} THEN <<THROW, THROW, THROW, THROW>>
+                        ELSE <<s.v1.idx, s.v1.val, s.v2.idx, s.v2.val>>,
              eq |-> EqV(s.v1, s.v2), ne |-> NotV(EqV(s.v1, s.v2)),
              lt |-> LtV(s.v1, s.v2), gt |-> LtV(s.v2, s.v1),
              le |-> NotV(LtV(s.v2, s.v1)), ge |-> NotV(LtV(s.v1, s.v2)),
-             live |-> Live(s)]
+             live |-> Live(s), threw |-> B(threw)]
 
 Go == ~Hist \/ Len(hist) < Depth + 1
-Step(op, d, i, x, how, s2) ==
+NoLast == [op |-> "init", i |-> 0, rule |-> "na", threw |-> FALSE, d |-> "v1", pre |-> [v1 |-> V(0, 0), v2 |-> V(0, 0)]]
+Step(op, d, i, x, how, f, s2, threw, rule, alts) ==
   /\ Go
   /\ vv' = s2
+  /\ last' = IF threw THEN [op |-> op, i |-> i, rule |-> rule, threw |-> threw, d |-> d, pre |-> vv] ELSE NoLast
+  /\ thrown' = (thrown \/ threw)
   /\ hist' = IF ~Hist THEN hist
-             ELSE Append(hist, [op |-> op, d |-> d, i |-> i, x |-> x, how |-> how, exp |-> ObsOf(s2)])
+             ELSE Append(hist, [op |-> op, d |-> d, i |-> i, x |-> x, how |-> how, f |-> f, rule |-> rule,
+                                exp |-> ObsOf(s2, threw), might |-> [k \in 1..Len(alts) |-> ObsOf(alts[k], threw)]])
+
+\* d receives a T_i built / assigned from a source of form `src` under `rule`; ok = the state when nothing throws
+Place(op, d, i, x, how, src, f, rule, ok) ==
+  LET fires == f = 1 /\ Fires(i, src)
+      s2    == IF ~fires THEN ok ELSE IF rule = "direct" THEN [vv EXCEPT ![d] = Valueless] ELSE vv
+      alts  == IF fires /\ rule = "direct" /\ vv[d] # Valueless THEN <<vv>> ELSE <<>>
+  IN /\ f \in {0, 1}
+     /\ (f = 1 => Throwing)
+     /\ ((Slim /\ f = 1) => Fires(i, src))
+     /\ Step(op, d, i, x, how, f, s2, fires, rule, alts)
+NoFault(op, d, i, x, how, s2) == Step(op, d, i, x, how, 0, s2, FALSE, "na", <<>>)
 
 Init == /\ vv = [v1 |-> V(0, 0), v2 |-> V(0, 0)]      \* default construction: first alternative, value-initialised
+        /\ last = NoLast
+        /\ thrown = FALSE
         /\ \A i \in 1..NWit : TLCSet(i, 0)
-        /\ hist = IF Hist THEN <<[op |-> "init", d |-> "", i |-> 0, x |-> 0, how |-> "", exp |-> ObsOf(vv)]>> ELSE <<>>
+        /\ hist = IF Hist THEN <<[op |-> "init", d |-> "", i |-> 0, x |-> 0, how |-> "", f |-> 0, rule |-> "na",
+                                  exp |-> ObsOf(vv, FALSE), might |-> <<>>]>> ELSE <<>>
 
-\* d = T_i(x)   (converting assignment; from an lvalue, an rvalue, or -- for the string -- a const char* )
-AssignVal(d, i, x) == /\ (Slim => x = 1)
-                      /\ Step("AssignVal", d, i, x, "", [vv EXCEPT ![d] = V(i, x)])
-\* d.emplace<i>(x)   returns a reference to the new value
-Emplace(d, i, x)   == /\ (Slim => x = 0)
-                      /\ Step("Emplace", d, i, x, "", [vv EXCEPT ![d] = V(i, x)])
+\* d = <T_i of value x>   (converting assignment; how = "conv": from a source object converting to T_i / a const char*,
+\* "lv": from a const T_i&, "rv": from a T_i&&, "": a form of the harness's choice -- fault-free only)
+AssignVal(d, i, x, how, f) ==
+  /\ (Slim => x = 1)
+  /\ how \in (IF i \in Throwers THEN (IF Slim /\ f = 0 THEN {""} ELSE {"conv", "lv", "rv"}) ELSE {""})
+  /\ IF how = "" THEN f = 0 /\ NoFault("AssignVal", d, i, x, how, [vv EXCEPT ![d] = V(i, x)])
+     ELSE Place("AssignVal", d, i, x, how, how, f, ConvRule(vv[d].idx, i, how), [vv EXCEPT ![d] = V(i, x)])
+\* d.emplace<i>(x)   returns a reference to the new value   (a class alternative is built by its converting constructor)
+Emplace(d, i, x, f) ==
+  /\ (Slim => x = 0)
+  /\ Place("Emplace", d, i, x, "", "conv", f, "direct", [vv EXCEPT ![d] = V(i, x)])
 \* d = other (how = "assign")   or   destroy d; construct d from other (how = "construct")
-Copy(d, how) == d \in Names /\ Step("Copy", d, 0, 0, how, [vv EXCEPT ![d] = vv[Other(d)]])
-Move(d, how) == d \in Names /\ Step("Move", d, 0, 0, how, [vv EXCEPT ![d] = vv[Other(d)], ![Other(d)] = MovedFrom(vv[Other(d)])])
-SelfCopy(d)  == d \in Names /\ Step("SelfCopy", d, 0, 0, "", vv)
-Swap         == TRUE /\ Step("Swap", "v1", 0, 0, "", [v1 |-> vv.v2, v2 |-> vv.v1])
+Copy(d, how, f) ==
+  /\ d \in Names
+  /\ IF how = "construct" \/ vv[Other(d)] = Valueless
+     THEN f = 0 /\ NoFault("Copy", d, 0, 0, how, [vv EXCEPT ![d] = vv[Other(d)]])
+     ELSE Place("Copy", d, vv[Other(d)].idx, 0, how, "lv", f, CopyRule(vv[d].idx, vv[Other(d)].idx),
+                [vv EXCEPT ![d] = vv[Other(d)]])
+Move(d, how, f) ==
+  /\ d \in Names
+  /\ IF how = "construct" \/ vv[Other(d)] = Valueless
+     THEN f = 0 /\ NoFault("Move", d, 0, 0, how, [vv EXCEPT ![d] = vv[Other(d)], ![Other(d)] = MovedFrom(vv[Other(d)])])
+     ELSE Place("Move", d, vv[Other(d)].idx, 0, how, "rv", f, MoveRule(vv[d].idx, vv[Other(d)].idx),
+                [vv EXCEPT ![d] = vv[Other(d)], ![Other(d)] = MovedFrom(vv[Other(d)])])
+\* d = d  (the variant itself).  No fault here: whether a self-assignment reaches the alternative's assignment operator
+\* at all (an implementation may return early) is not observable without one, and the state is the same either way
+SelfCopy(d, f) ==
+  /\ d \in Names
+  /\ f = 0 /\ NoFault("SelfCopy", d, 0, 0, "", vv)
+Swap == TRUE /\ NoFault("Swap", "v1", 0, 0, "", [v1 |-> vv.v2, v2 |-> vv.v1])
+\* d = get<held>(d)   (a const reference to the contained value itself)
+AliasSelf(d, f) ==
+  /\ d \in Names
+  /\ ((Slim /\ ~Throwing) => d = "v1")       \* all-paths generation of the basic shape: one variable (symmetry)
+  /\ vv[d] # Valueless
+  /\ Place("AliasSelf", d, vv[d].idx, 0, "", "lv", f, "assign", vv)
+\* d = get<held>(d).member, the member being a source object that converts to alternative i and mirrors the value
+AliasMember(d, i, f) ==
+  /\ Throwing
+  /\ vv[d].idx \in Throwers /\ i \in Throwers
+  /\ ConvRule(vv[d].idx, i, "conv") # "direct"
+  /\ Place("AliasMember", d, i, 0, "", "conv", f, ConvRule(vv[d].idx, i, "conv"), [vv EXCEPT ![d] = V(i, vv[d].val)])
 
-Next == \/ \E d \in Names, i \in Alt, x \in ValD : AssignVal(d, i, x) \/ Emplace(d, i, x)
-        \/ \E d \in Names, how \in {"assign", "construct"} : Copy(d, how) \/ Move(d, how)
-        \/ \E d \in Names : SelfCopy(d)
+Faults == IF Throwing THEN {0, 1} ELSE {0}
+Next == \/ \E d \in Names, i \in Alt, x \in ValD, how \in {"", "conv", "lv", "rv"}, f \in Faults : AssignVal(d, i, x, how, f)
+        \/ \E d \in Names, i \in Alt, x \in ValD, f \in Faults : Emplace(d, i, x, f)
+        \/ \E d \in Names, how \in {"assign", "construct"}, f \in Faults : Copy(d, how, f) \/ Move(d, how, f)
+        \/ \E d \in Names, f \in Faults : SelfCopy(d, f) \/ AliasSelf(d, f)
+        \/ \E d \in Names, i \in Alt, f \in Faults : AliasMember(d, i, f)
         \/ Swap
 
 Spec == Init /\ [][Next]_vars
 
 (* ---- the property ------------------------------------------------------ *)
-TypeOK == \A n \in Names : vv[n].idx \in Alt /\ vv[n].val \in ValD \cup {ANY, MOVED}
-\* exactly one alternative is held; get<I> succeeds exactly for it; visitation selects it
+TypeOK == \A n \in Names : /\ vv[n].idx \in Alt \cup {NPOS} /\ vv[n].val \in ValD \cup {ANY, MOVED}
+                           /\ (vv[n].idx = NPOS => vv[n].val = 0)
+\* exactly one alternative is held (none by a valueless variant); get<I> succeeds exactly for it; visitation selects it
 OneAlternative == \A n \in Names : LET o == ObsVar(vv[n]) IN
-                    /\ Cardinality({j \in 1..NAlt : o.holds[j] = "T"}) = 1
+                    /\ Cardinality({j \in 1..NAlt : o.holds[j] = "T"}) = (IF o.vless = "T" THEN 0 ELSE 1)
                     /\ \A j \in 1..NAlt : (o.get[j] # THROW) <=> (o.holds[j] = "T")
-                    /\ o.visit[1] = o.idx /\ o.holds[o.idx + 1] = "T"
-\* unspecified values only where the standard leaves them: a moved-from string; the moved marker only in Tracked
-AnyOnlyString == \A n \in Names : (vv[n].val = ANY => vv[n].idx = 1) /\ (vv[n].val = MOVED => vv[n].idx = 2)
+                    /\ (o.vless = "F" => o.visit[1] = o.idx /\ o.holds[o.idx + 1] = "T")
+                    /\ (o.vless = "T" <=> o.idx = NPOS) /\ (o.vless = "T" => o.visit[1] = THROW)
+\* unspecified values only where the standard leaves them: a moved-from string; the moved marker only in a class
+AnyOnlyString == \A n \in Names : /\ (vv[n].val = ANY => ~Throwing /\ vv[n].idx = 1)
+                                  /\ (vv[n].val = MOVED => IsClass(vv[n].idx))
 OrderTotal == LET e == EqV(vv.v1, vv.v2) l == LtV(vv.v1, vv.v2) g == LtV(vv.v2, vv.v1) IN
               "any" \notin {e, l, g} => Cardinality({z \in {e, l, g} : z = "T"}) = 1
-Property == OneAlternative /\ AnyOnlyString /\ OrderTotal
+\* a variant loses its value only through an exception
+ValuelessOnlyAfterThrow == (\E n \in Names : vv[n] = Valueless) => thrown
+\* an exception out of an assignment to the held alternative, or out of the construction of the temporary, changes nothing
+ThrowKeepsOld == (last.threw /\ last.rule \in {"assign", "temp", "na"}) => vv = last.pre
+\* an exception out of a direct emplace costs at most the destination its value; the other variable is untouched
+ThrowDirect == (last.threw /\ last.rule = "direct") => /\ vv[Other(last.d)] = last.pre[Other(last.d)]
+                                                       /\ vv[last.d] \in {Valueless, last.pre[last.d]}
+\* consequence the standard spells out: ASSIGNING an alternative whose move constructor cannot throw (converting, copy,
+\* move or self-aliasing assignment -- not emplace) gives the strong guarantee: after an exception nothing has changed
+NothrowMoveAssignStrong == (last.threw /\ last.op # "Emplace" /\ NothrowMove(last.i)) => vv = last.pre
+Property == /\ OneAlternative /\ AnyOnlyString /\ OrderTotal /\ ValuelessOnlyAfterThrow /\ ThrowKeepsOld /\ ThrowDirect
+            /\ NothrowMoveAssignStrong
 
 (* ---- behaviour export ---------------------------------------------------- *)
 EmitAll == (Hist /\ Len(hist) = Depth + 1) => PrintT(<<"BEH", ToJson([steps |-> hist])>>)
 Last == hist[Len(hist)]
 HasLast == Hist /\ Len(hist) > 1
+Prev == hist[Len(hist) - 1]
+Threw == Last.exp.threw = "T"
 \* rare conditions that must be in the replay set of every run: each is reported once (per worker)
 \* from the path-enumeration run itself; the check is broken if one of them is never reported
 Wits == <<
   <<"MoveTracked", HasLast /\ Last.op = "Move" /\ vv[Last.d].idx = 2 /\ vv[Other(Last.d)].val = MOVED>>,
   <<"MoveString", HasLast /\ Last.op = "Move" /\ vv[Other(Last.d)].val = ANY>>,
-  <<"ReplaceTracked", HasLast /\ Last.op \in {"AssignVal", "Emplace"} /\ Len(hist) > 2 /\ hist[Len(hist) - 1].exp.live = 2 /\ Last.exp.live = 1>>,
+  <<"ReplaceTracked", HasLast /\ Last.op \in {"AssignVal", "Emplace"} /\ Len(hist) > 2 /\ Prev.exp.live[3] = 2 /\ Last.exp.live[3] = 1>>,
   <<"SwapDifferent", HasLast /\ Last.op = "Swap" /\ vv.v1.idx = 2 /\ vv.v2.idx = 1>>,
   <<"CopyAny", HasLast /\ Last.op = "Copy" /\ vv[Last.d].val = ANY>>,
-  <<"SameIndexAssign", HasLast /\ Last.op = "AssignVal" /\ Len(hist) > 2 /\ hist[Len(hist) - 1].exp[Last.d].idx = Last.i /\ Last.i = 2>> >>
+  <<"SameIndexAssign", HasLast /\ Last.op = "AssignVal" /\ Len(hist) > 2 /\ Prev.exp[Last.d].idx = Last.i /\ Last.i = 2>>,
+  <<"AliasSelfClass", HasLast /\ Last.op = "AliasSelf" /\ IsClass(Last.i)>>,
+  \* throwing shape
+  <<"ConvThrowKeepsOld", HasLast /\ Last.op = "AssignVal" /\ Last.how = "conv" /\ Threw /\ Last.rule = "temp" /\ IsClass(vv[Last.d].idx)>>,
+  <<"CopyInThrowKeepsOld", HasLast /\ Last.op = "AssignVal" /\ Last.how = "lv" /\ Threw /\ Last.rule = "temp">>,
+  <<"ConvThrowValueless", HasLast /\ Last.op = "AssignVal" /\ Threw /\ Last.rule = "direct" /\ vv[Last.d] = Valueless>>,
+  <<"AssignSameThrows", HasLast /\ Last.op = "AssignVal" /\ Threw /\ Last.rule = "assign">>,
+  <<"EmplaceThrowValueless", HasLast /\ Last.op = "Emplace" /\ Threw /\ Len(hist) > 2 /\ Prev.exp[Last.d].idx > 0>>,
+  <<"CopyAssignThrowKeepsOld", HasLast /\ Last.op = "Copy" /\ Threw /\ Last.rule = "temp">>,
+  <<"CopyAssignThrowValueless", HasLast /\ Last.op = "Copy" /\ Threw /\ Last.rule = "direct">>,
+  <<"MoveAssignThrowValueless", HasLast /\ Last.op = "Move" /\ Threw /\ Last.rule = "direct">>,
+  <<"AliasMemberConverting", HasLast /\ Last.op = "AliasMember" /\ ~Threw /\ Last.rule = "temp">>,
+  <<"AliasMemberConvertingThrows", HasLast /\ Last.op = "AliasMember" /\ Threw /\ Last.rule = "temp">>,
+  <<"AliasMemberSame", HasLast /\ Last.op = "AliasMember" /\ Last.rule = "assign">>,
+  <<"FromValueless", HasLast /\ Last.op \in {"Copy", "Move", "Swap"} /\ ~Threw /\ Len(hist) > 2
+                     /\ \E n \in Names : Prev.exp[n].idx = NPOS /\ Last.exp[n].idx # NPOS>>,
+  <<"ValuelessRefilled", HasLast /\ Last.op \in {"AssignVal", "Emplace"} /\ ~Threw /\ Len(hist) > 2 /\ Prev.exp[Last.d].idx = NPOS>> >>
 WitAll == \A i \in 1..NWit : (Wits[i][2] /\ TLCGet(i) = 0) => (PrintT(<<"WIT", Wits[i][1]>>) /\ TLCSet(i, 1))
 =============================================================================
